@@ -129,13 +129,25 @@ def run(ctx):
 
     # ---- (c) make_hashes correspondence (all three kinds), chunked paths, get_unique_states ----
     cases, metas = [], []
-    for _ in range(ctx.budget(70, 600)):
-        gd = G.gen_graph(rng, cap=300)
-        layers, dist = G.ref_bfs(gd, [gd["central"]])
-        cfgd = G.gen_config(rng, gd)
+    for it in range(ctx.budget(70, 600)):
+        signbit = it % 6 == 5
+        if signbit:
+            # one code word filled to the sign bit (n * width = 64): codes of both signs, far apart (identity-hash de-duplication must
+            # order and compare them as signed 64-bit integers without overflow)
+            n_, w_ = rng.choice([(64, 1), (32, 2), (16, 4)])          # entries must stay below n
+            gd = {"kind": "perm", "gens": [[(i + 1) % n_ for i in range(n_)], [1, 0] + list(range(2, n_))], "central": [0] * (n_ - 1) + [2 ** w_ - 1]}
+            layers, dist = G.ref_bfs(gd, [gd["central"]])
+            cfgd = dict(G.gen_config(rng, gd), bit_encoding_width=w_)
+            ctx.count("sign_bit_single_word_batches")
+        else:
+            gd = G.gen_graph(rng, cap=300)
+            layers, dist = G.ref_bfs(gd, [gd["central"]])
+            cfgd = G.gen_config(rng, gd)
         graph = G.make_graph(gd, cfgd)
         verts = sorted(dist)
         batch = [list(rng.choice(verts)) for _ in range(rng.randint(1, 9))]
+        if signbit:
+            batch += [list(gd["central"]), list(verts[0]), list(verts[-1])]
         if rng.random() < 0.7:
             batch += [list(rng.choice(batch)) for _ in range(rng.randint(1, 4))]
         rng.shuffle(batch)
